@@ -18,7 +18,7 @@ import re
 from .. import core, tlc
 from .. import discoveryutil as du
 
-INVARIANTS = ["TypeOK", "Nearest", "Determinism", "ExactOnly", "JobInnermost", "MissingRaises", "InitFindsIt"]
+INVARIANTS = ["TypeOK", "Nearest", "Determinism", "ExactOnly", "JobInnermost", "MissingRaises", "InitFindsIt", "RemoveUndoesInit"]
 PROPS = ["InitIdempotent", "SecondInitNoop"]
 _G = {}  # set before forking
 
@@ -44,6 +44,39 @@ def _strip(base, x):
     if isinstance(x, (list, tuple)):
         return [_strip(base, y) for y in x]
     return x
+
+
+_FNS = (("get_project", lambda p: __import__("signac").get_project(p), "gp"),
+        ("get_project(search=False)", lambda p: __import__("signac").get_project(p, search=False), "gpx"),
+        ("Project", lambda p: __import__("signac").Project(p), "open"),
+        ("get_job", lambda p: __import__("signac").get_job(p), "job"))
+
+
+def _undo_added(base, added):
+    for rp in sorted(added, reverse=True):
+        fp = os.path.join(base, rp)
+        try:
+            os.rmdir(fp) if rp.endswith("/") else os.remove(fp)
+        except OSError:
+            pass
+
+
+def _stash_project(base, path, stash):
+    """remove a project by hand: move .signac/ and the (empty) workspace/ out of the sandbox; returns the undo list"""
+    moved = []
+    os.makedirs(stash, exist_ok=True)
+    for name in (".signac", "workspace"):
+        src = os.path.join(du.ap(base, path), name)
+        if os.path.lexists(src):
+            dst = os.path.join(stash, "%d-%s" % (len(os.listdir(stash)), name))
+            os.rename(src, dst)
+            moved.append((dst, src))
+    return moved
+
+
+def _unstash(moved):
+    for dst, src in reversed(moved):
+        os.rename(dst, src)
 
 
 def _check_tree(rec, base, seed, out, expected_override=None, skip_config_of=None, limit_queries=None):
@@ -149,6 +182,42 @@ def _check_tree(rec, base, seed, out, expected_override=None, skip_config_of=Non
         du.rmtree(base)
         du.materialise(nodes, base, seed, skip_config_of=skip_config_of, use_api=use_api)
         snap0 = du.snapshot(base)
+    # --- histories in ONE process: after the tree changed, every query must give the answer of the CURRENT tree
+    def requery(changed, spelling, hcase):
+        nonlocal n_eval
+        ch = {tuple(c["q"]): c for c in changed}
+        nbad = 0
+        for c2 in cases:
+            src = ch.get(tuple(c2["q"]), c2)
+            p = du.ap(base, c2["q"])
+            for name, f, key in (_FNS if tuple(c2["q"]) in ch else (_FNS[0], _FNS[3])):
+                got = du.call(f, p)
+                n_eval += 1
+                exp = du.want(base, src[key], name == "get_job")
+                if not du.same(got, exp):
+                    determined = _qclass(kinds, c2) != "via-symlink" or (name == "get_job" and c2.get("det"))
+                    report("violation" if determined else "drift-CAL_Lexical", name, spelling, c2, got, exp, {"history": spelling, "at": hcase["q"]})
+                    nbad += 1
+                    break
+            if nbad >= 3:
+                return
+
+    stash = os.path.join(os.path.dirname(base), "stash-" + os.path.basename(base))
+    n_hist = 0
+    for case in cases:
+        rm = case.get("remove")
+        if not rm or not rm["enabled"] or not (len(rm["changed"]) > 1 or du._h(seed, case["q"], "rm") % 4 == 0):
+            continue
+        moved = _stash_project(base, case["q"], stash)
+        try:
+            requery(rm["changed"], "abs-after-project-removed", case)
+        finally:
+            _unstash(moved)
+        if du.snapshot(base) != snap0:
+            raise core.MachineryError("cannot restore sandbox after removing a project by hand")
+        requery([], "abs-after-project-restored", case)
+        n_hist += 1
+    du.rmtree(stash)
     # --- init_project
     n_init_rich = 0
     for case in cases:
@@ -212,7 +281,11 @@ def _check_tree(rec, base, seed, out, expected_override=None, skip_config_of=Non
             else:
                 got2 = du.call(signac.get_project, absq)
                 if not du.same(got2, du.want(base, ini["after"])):
-                    report("violation", "get_project", "abs-after-init", case, got2, du.want(base, ini["after"]))
+                    report("violation", "get_project", "abs-after-init", case, got2, du.want(base, ini["after"]), {"history": "abs-after-init", "at": q})
+                do_hist = ini.get("hist") and (len(ini["changed"]) > 1 or du._h(seed, q, "hist") % 8 == 0)
+                if do_hist:
+                    requery(ini["changed"], "abs-after-init", case)
+                    n_hist += 1
                 # idempotence: the second call on what is now an existing project changes nothing
                 got3 = du.call(signac.init_project, absq)
                 n_eval += 2
@@ -224,19 +297,16 @@ def _check_tree(rec, base, seed, out, expected_override=None, skip_config_of=Non
                     report("violation", "init_project", "second-call", case, ["modified", a2, r2, c2], ["unchanged"],
                            {"existing": True, "changed": du.classify_paths(a2 + r2 + c2), "rich": False})
             # restore: undo exactly what was added, verify, rebuild only if that does not give the original back
-            for rp in sorted(a, reverse=True):
-                fp = os.path.join(base, rp)
-                try:
-                    os.rmdir(fp) if rp.endswith("/") else os.remove(fp)
-                except OSError:
-                    pass
+            _undo_added(base, a)
             if r or c or du.snapshot(base) != snap0:
                 du.rmtree(base)
                 du.materialise(nodes, base, seed, skip_config_of=skip_config_of, use_api=use_api)
                 if du.snapshot(base) != snap0:
                     raise core.MachineryError("cannot restore sandbox")
+            elif ini.get("hist") and (len(ini["changed"]) > 1 or du._h(seed, q, "hist") % 8 == 0):
+                requery([], "abs-after-remove", case)      # the project is gone again: the original answers
     du.rmtree(base)
-    return {"eval": n_eval, "cases": len(cases), "shapes": shapes, "init_rich": n_init_rich}
+    return {"eval": n_eval, "cases": len(cases), "shapes": shapes, "init_rich": n_init_rich, "hist": n_hist}
 
 
 def _work(item):
@@ -394,7 +464,9 @@ def _signature(f):
         if f["got"] and f["got"][0] == "modified":
             return "init_project:%s:modifies-%s" % ("second-call" if f["spelling"] == "second-call" else "existing-project", f["extra"]["changed"])
         return "init_project:%s:%s" % ("existing-project" if f["extra"].get("existing") else "create", du.relation(f["got"], f["exp"]))
-    sp = {"abs": "", "abs-alt": ":alt-spelling", "rel": ":relative", "cwd": ":cwd", "abs-after-init": ":after-init"}[f["spelling"]]
+    sp = {"abs": "", "abs-alt": ":alt-spelling", "rel": ":relative", "cwd": ":cwd", "abs-after-init": ":stale-after-init_project",
+          "abs-after-remove": ":stale-after-project-removed", "abs-after-project-removed": ":stale-after-project-removed",
+          "abs-after-project-restored": ":stale-after-init_project"}[f["spelling"]]
     return "%s:%s:%s%s" % (f["fn"], f["qclass"], du.relation(f["got"], f["exp"]), sp)
 
 
@@ -432,14 +504,14 @@ def run(ctx):
     if ctx.quick:
         runs.append(("exhaustive: spines depth<=1, full branching depth<=1 (action coverage)", C(1, 1, 1, 1, 1, 0), True))
         runs.append(("exhaustive: spines depth<=3 with a side branch, full branching depth<=2, <=1 link", C(3, 1, 2, 1, 1, 0), False))
-        runs.append(("exhaustive: bare spines depth<=5 with <=1 link; 200 pseudo-random wide trees of depth 5", C(5, 0, 0, 1, 0, 200), False))
+        runs.append(("exhaustive: bare spines depth<=5 with <=1 link; 120 pseudo-random wide trees of depth 5", C(5, 0, 0, 1, 0, 120), False))
     else:
         runs.append(("exhaustive: spines depth<=2, full branching depth<=2 (action coverage)", C(2, 1, 2, 1, 1, 0), True))
         runs.append(("exhaustive: spines depth<=5 with a side branch and <=1 link, full branching depth<=2; 2000 pseudo-random wide trees",
                      C(5, 1, 2, 1, 1, 2000), False))
         runs.append(("exhaustive: full branching depth<=3 without links", C(1, 0, 3, 0, 0, 0), False))
     _G.update(root=root, seed=ctx.seed)
-    total = {"eval": 0, "cases": 0, "trees": 0, "init_rich": 0}
+    total = {"eval": 0, "cases": 0, "trees": 0, "init_rich": 0, "hist": 0}
     findings = []
     shapes = {}
     first_lines = []
@@ -447,7 +519,7 @@ def run(ctx):
         out = os.path.join(ctx.work, "cases%d.ndjson" % k)
         r = _run_tlc(ctx, name, consts, cov, out, workers)
         if cov:
-            ctx.require_actions(r, ["PickQuery", "InitExisting", "InitCreate"])
+            ctx.require_actions(r, ["PickQuery", "InitExisting", "InitCreate", "RemoveProject"])
         with open(out) as f:
             lines = f.readlines()
         m = re.search(r"Finished computing initial states: (\d+) distinct", r.stdout)
@@ -462,6 +534,7 @@ def run(ctx):
             total["cases"] += cnt["cases"]
             total["trees"] += 1
             total["init_rich"] += cnt["init_rich"]
+            total["hist"] += cnt["hist"]
             for s, n in cnt["shapes"].items():
                 shapes[s] = shapes.get(s, 0) + n
             findings += fs
@@ -473,6 +546,7 @@ def run(ctx):
     ctx.cov["trees_replayed"] = total["trees"]
     ctx.cov["cases_replayed"] = total["cases"]
     ctx.cov["init_project_on_rich_existing_projects"] = total["init_rich"]
+    ctx.cov["same_process_histories"] = total["hist"]   # query all -> init_project / remove project -> query all -> undo -> query all
     if total["init_rich"] == 0:
         raise core.MachineryError("no init_project call on a project with configuration entries, documents, cache and jobs")
     # samples
@@ -523,7 +597,29 @@ def replay(ctx, data):
     before = du.snapshot(base)
     meta0 = du.file_meta(base)
     extra = data.get("extra") or {}
-    if data["spelling"] == "rel":
+    if data["spelling"].startswith("abs-after"):
+        # a history in one process: ask about every node, change the tree, ask again
+        for n in data["nodes"]:
+            for _, g, _k in _FNS:
+                du.call(g, du.ap(base, n["p"]))
+        at = extra.get("at", data["q"])
+        print("history: all nodes queried; then", data["spelling"], "at", "/".join(at) or ".")
+        if data["spelling"] in ("abs-after-init", "abs-after-remove"):
+            du.call(signac.init_project, du.ap(base, at))
+            if data["spelling"] == "abs-after-remove":
+                for n in data["nodes"]:
+                    for _, g, _k in _FNS:
+                        du.call(g, du.ap(base, n["p"]))
+                _undo_added(base, du.snapdiff(before, du.snapshot(base))[0])
+        else:
+            moved = _stash_project(base, at, base + "-stash")
+            if data["spelling"] == "abs-after-project-restored":
+                for n in data["nodes"]:
+                    for _, g, _k in _FNS:
+                        du.call(g, du.ap(base, n["p"]))
+                _unstash(moved)
+        got = du.call(f, q)
+    elif data["spelling"] == "rel":
         with du.cwd(du.ap(base, extra["cwd"])):
             got = du.call(f, extra["rel"])
     elif data["spelling"] == "cwd":
